@@ -123,9 +123,9 @@ VH_DRIVER(algebra){
       std::vector<const char*> alpha={"",".","..","a","A","%41","%7e","%7E","%3a","%3A","%2e","%2E","b:c","%2E%2e","a%4","...","..a","%3A%61","%3A%3a%41","%2E%2E%2e"};
       auto paths=seg_seqs(alpha,g.thorough?3:2);
       for(auto s:sc) for(auto a:au) for(int ab=0;ab<2;++ab) for(auto&sg:paths) { bool nosegs=sg.size()==1&&sg[0]==1; if(*a&&!ab&&!nosegs) continue; const char*q=qf[(in.size())%7]; Text t=T(s)+T(a); if(ab) t.push_back('/'); if(!nosegs) t=t+sg; t=t+T(q); in.push_back(t); } }
-    static const unsigned masks[]={63,0,1,2,4,8,16,32,8|4,63^8,1|32,0x40|8,0xFFFFFFFFu};
+    static const unsigned masks[]={63,0,1,2,4,8,16,32,8|4,63^8,1|32,0x40|8,0xFFFFFFFFu,0x40,0x100};
     size_t total=in.size()*(g.thorough?64:6); double keep= total>(size_t)want? (double)want/total:1.0; long k=0;
-    for(auto&t:in){ int nm= g.thorough?64:6; for(int mi=0;mi<nm;++mi){ ++k; if(keep<1.0 && (R.next()%1000000)>=keep*1000000) continue; unsigned m= g.thorough? (unsigned)mi : masks[(k+mi)%13];
+    for(auto&t:in){ int nm= g.thorough?64:6; for(int mi=0;mi<nm;++mi){ ++k; if(keep<1.0 && (R.next()%1000000)>=keep*1000000) continue; unsigned m= g.thorough? (unsigned)mi : masks[(k+mi)%15];
         bool owned=(k%2)==0; int ep=(int)(k%3); AW(true,k%4<2,[&]{ normalize_event<ApiA>(t,m,owned,ep); },[&]{ normalize_event<ApiW>(t,m,owned,ep); });
         if(k%3001==0) g.sample(J().str("uri",show(t)).num("mask",m).boo("owned",owned).done()); } }
     { const char* segs[]={"",".","..","..","a","%41","b:c","...","..a","%2e%2E","%3A%61"}; long extra= g.thorough? 100000: 2500;
@@ -143,6 +143,11 @@ VH_DRIVER(algebra){
     for(auto&s:U) for(auto&b:U) for(int md=0;md<2;++md){ ++k; if(keep<1.0 && (R.next()%1000000)>=keep*1000000) continue;
       AW(true,k%2,[&]{ removebase_event<ApiA>(s,b,md,(int)(k%3==0)); },[&]{ removebase_event<ApiW>(s,b,md,(int)(k%3==0)); });
       if(k%9001==0) g.sample(J().str("source",show(s)).str("base",show(b)).num("mode",md).done()); }
+    // every ordered pair of authorities that differ in exactly one part (user info, host text, host bytes high / low, port, kind), same path shapes
+    { const char* auths[]={"//h","//u@h","//v@h","//@h","//h:1","//h:2","//h:","//u@h:1","//g","//H","//1.2.3.4","//1.2.3.5","//9.2.3.4","//[::1]","//[::2]","//[1::1]","//[0:0:0:0:0:0:0:1]","//[::1.2.3.4]","//[::102:304]","//[v1.a]","//[v1.b]","//[v2.a]","//","//1.2.3.4:1","//[::1]:1"};
+      const char* pths[]={"/a/b","/a/c"}; long q=0;
+      for(auto a1:auths) for(auto a2:auths) for(int pi=0;pi<2;++pi) for(int md=0;md<2;++md){ ++q; Text s=T("s:")+T(a1)+T(pths[pi]), b=T("s:")+T(a2)+T(pths[1-pi]);
+        AW(true,q%2,[&]{ removebase_event<ApiA>(s,b,md,(int)(q%3==0)); },[&]{ removebase_event<ApiW>(s,b,md,(int)(q%3==0)); }); } }
     // non-absolute operands: the two dedicated error codes
     for(const char*x:{"//h/a","/a","a","","?q"}) for(const char*y:{"s://h/a","//h/a","a"}) for(int md=0;md<2;++md){ AW(true,true,[&]{ removebase_event<ApiA>(T(x),T(y),md,0); },[&]{ removebase_event<ApiW>(T(x),T(y),md,0); }); AW(true,false,[&]{ removebase_event<ApiA>(T(y),T(x),md,1); },[&]{ removebase_event<ApiW>(T(y),T(x),md,1); }); }
     // longer random paths sharing prefixes of random length
